@@ -246,6 +246,21 @@ for text, valid, hit, miss in (('12:30', True, (12, 30), (12, 31)), ('*:15', Tru
         c.ensures('no-constant-and-a-message', "result is None and self._error_output != ''")
 
 
+# ---- the statement itself on a concrete token sequence: `time at 12:30 or *:15 <next statement>` is accepted and compiles to
+#      INIT 12:30; UNION *:15 (the cursor must be ON the first pattern when the pattern list is read, and stop after the last)
+c = contract('bardolph/parser/parse.py', 'Parser._time', serves=['C11', 'C06', 'C10'], name='Parser._time[time at 12:30 or *:15 set]')
+def _setup(b, case):
+    T = lambda t, text=None: PL.concrete_token(b.I, t, text)
+    pr = PL.parser(b, first_token=T('REGISTER', 'time'), then=(T('AT'), T('TIME_PATTERN', '12:30'), T('OR'), T('TIME_PATTERN', '*:15'), T('SET')))
+    return {'self': pr}
+c.setup(_setup)
+c.no_loop_cuts = True
+c.ensures('accepted-without-a-message', "result is True and self._error_output == old(self._error_output)")
+c.ensures('first-replaces-second-is-added', "len(emitted(self)) == 2 and instr(emitted(self)[0], 'TIME_PATTERN', SetOp.INIT) and instr(emitted(self)[1], 'TIME_PATTERN', SetOp.UNION) "
+          "and emitted(self)[0].param1.match(12, 30) and not emitted(self)[0].param1.match(7, 15) and emitted(self)[1].param1.match(7, 15) and not emitted(self)[1].param1.match(12, 30)")
+c.ensures('stops-on-the-next-statement', 'self._current_token._token_type is TokenTypes.SET')
+
+
 # ---- the literal reader on numerals: an integer numeral is that integer (exactly, however long), a numeral with a
 #      decimal point is a float - also 1.0 (print 1.0 writes 1.0, print 1 writes 1)
 for text, kind, val in (('3', 'int', 3), ('0', 'int', 0), ('007', 'int', 7), ('9007199254740993', 'int', 9007199254740993),
